@@ -198,7 +198,8 @@ def r2_parameters(ctx):
                         m = corpus.method(ci, op)
                         if m is not None and stored and any(isinstance(a, ast.Attribute) and a.attr in stored for a in ast.walk(m.node)):
                             used_by_exercised_op = True
-            ok = bounded or probed or used_by_exercised_op
+            # membership in a literal collection compares by value (256.0 == 256, True == 1): it bounds but does not type the value
+            ok = (bounded and typed) or probed or used_by_exercised_op
             how = 'bounded by a raising guard' if bounded else 'probed by a lookup that fails for bad values' if probed else 'used by an operation init performs before the upload'
             ctx.check(
                 ok,
@@ -242,7 +243,111 @@ def _stored_attr(init, p, corpus=None):
                             if isinstance(t, ast.Attribute) and t.attr not in out and any(isinstance(x, ast.Attribute) and x.attr in out and isinstance(x.value, ast.Name) for x in ast.walk(v)):
                                 out.add(t.attr)
                                 changed = True
+        # properties / accessors that return a stored attribute (key_bytes -> self._key_bytes)
+        for c in corpus.mro(init.cls):
+            for mname, m in c.methods.items():
+                if mname.startswith('__'):
+                    continue
+                if len(m.node.body) <= 3 and any(isinstance(x, ast.Attribute) and x.attr in out and isinstance(x.value, ast.Name) for r in ast.walk(m.node) if isinstance(r, ast.Return) and r.value is not None for x in ast.walk(r.value)):
+                    out.add(mname)
     return out
+
+
+def _eval_guard(e, env):
+    """evaluate a pure guard expression over integer samples (comparison chains, and/or/not, isinstance, arithmetic);
+    returns True / False, or None when the expression uses anything else"""
+    try:
+        if isinstance(e, ast.Constant):
+            return e.value
+        if isinstance(e, ast.Name):
+            return env[e.id] if e.id in env else None
+        if isinstance(e, ast.UnaryOp):
+            v = _eval_guard(e.operand, env)
+            if v is None:
+                return None
+            return (not v) if isinstance(e.op, ast.Not) else (-v if isinstance(e.op, ast.USub) else None)
+        if isinstance(e, ast.BoolOp):
+            vals = [_eval_guard(v, env) for v in e.values]
+            if isinstance(e.op, ast.Or):
+                if any(v is True for v in vals):
+                    return True
+                return None if any(v is None for v in vals) else False
+            if any(v is False for v in vals):
+                return False
+            return None if any(v is None for v in vals) else True
+        if isinstance(e, ast.Compare):
+            left = _eval_guard(e.left, env)
+            for op, c in zip(e.ops, e.comparators):
+                right = _eval_guard(c, env)
+                if left is None or right is None:
+                    return None
+                r = {ast.Lt: left < right, ast.LtE: left <= right, ast.Gt: left > right, ast.GtE: left >= right, ast.Eq: left == right, ast.NotEq: left != right}.get(type(op))
+                if r is None:
+                    return None
+                if not r:
+                    return False
+                left = right
+            return True
+        if isinstance(e, ast.Call) and isinstance(e.func, ast.Name) and e.func.id == 'isinstance' and len(e.args) == 2:
+            v = _eval_guard(e.args[0], env)
+            t = e.args[1]
+            names = [x.id for x in (t.elts if isinstance(t, ast.Tuple) else [t]) if isinstance(x, ast.Name)]
+            if v is None or not names:
+                return None
+            return any((n == 'int' and isinstance(v, int)) or (n == 'bool' and isinstance(v, bool)) or (n == 'float' and isinstance(v, float)) for n in names)
+        if isinstance(e, ast.BinOp):
+            a, b = _eval_guard(e.left, env), _eval_guard(e.right, env)
+            if a is None or b is None:
+                return None
+            return {ast.Add: lambda: a + b, ast.Sub: lambda: a - b, ast.Mult: lambda: a * b, ast.Mod: lambda: a % b if b else None, ast.FloorDiv: lambda: a // b if b else None}.get(type(e.op), lambda: None)()
+    except Exception:
+        return None
+    return None
+
+
+def r2b_chunker_lengths_positive(ctx):
+    """gclmulchunker refuses a non-positive length: with min_length = 0 the native cutter answers "cut at 0" forever -
+    init accepts the settings, snapshots succeed with no chunks and restores write empty files"""
+    corpus = ctx.corpus
+    ci = corpus.cls('adapters', 'gclmulchunker')
+    init = ci.methods.get('__init__')
+    if init is None:
+        raise AnalysisError('C17.R2: gclmulchunker.__init__ missing')
+    ctx.analysed(init)
+    params = [a.arg for a in init.node.args.kwonlyargs + init.node.args.args][0:]
+    params = [p for p in params if p != 'self']
+    guards = _guards(init.node)
+    for p in params:
+        # sample: this length = 0, the others large enough to satisfy every relative constraint
+        env = {q: 4096 for q in params}
+        env[p] = 0
+        rejected = False
+        undecided = False
+        for g, gnames in guards:
+            tests = [g.test]
+            # a guard inside `for length in (min_length, max_length)`: the loop variable stands for either parameter
+            for a in _anc(g):
+                if isinstance(a, ast.For) and isinstance(a.target, ast.Name) and isinstance(a.iter, (ast.Tuple, ast.List)) and any(isinstance(e, ast.Name) and e.id == p for e in a.iter.elts):
+                    env2 = dict(env)
+                    env2[a.target.id] = 0
+                    v = _eval_guard(g.test, env2)
+                    raising_branch_true = body_always_raises(g.body)
+                    if v is not None and (v if raising_branch_true else not v):
+                        rejected = True
+            v = _eval_guard(g.test, env)
+            raising_branch_true = body_always_raises(g.body)
+            if v is None:
+                undecided = undecided or (p in gnames)
+            elif (v if raising_branch_true else not v):
+                rejected = True
+        ctx.check(
+            rejected,
+            'C17.R2',
+            f'{func_label(init)}|length-positive:{p}',
+            loc(init, init.node),
+            f'gclmulchunker: {p} = 0 is refused by a raising guard',
+            f'gclmulchunker accepts {p} = 0' + (' (no guard could be evaluated for it)' if undecided else '') + ': the native cutter then returns position 0 for every buffer, snapshots contain no chunks and restore silently writes empty files',
+        )
 
 
 def r3_validator_consumers(ctx):
@@ -256,6 +361,31 @@ def r3_validator_consumers(ctx):
         for d in ast.walk(f.node):
             if isinstance(d, ast.Dict):
                 allowed += [(f, k.value) for k in d.keys if isinstance(k, ast.Constant)]
+            # dict.fromkeys(<table>, type): the keys of the table are allowed
+            if isinstance(d, ast.Call) and dotted(d.func) == 'dict.fromkeys' and d.args:
+                tbl = deref(f.node, d.args[0]) if isinstance(d.args[0], ast.Name) else d.args[0]
+                if isinstance(tbl, ast.Dict):
+                    allowed += [(f, k.value) for k in tbl.keys if isinstance(k, ast.Constant)]
+                elif isinstance(tbl, (ast.Tuple, ast.List, ast.Set)):
+                    allowed += [(f, k.value) for k in tbl.elts if isinstance(k, ast.Constant)]
+    allowed = list(dict.fromkeys(allowed))
+    # the sections init accepts under `encryption` are the documented ones (README: --encryption.<section>.<option>)
+    import re as _re
+
+    documented = set(_re.findall(r'--encryption\.([a-z_]+)\.', corpus.extra_files.get('README.md', '')))
+    top = {'hashing', 'chunking', 'encryption'}
+    if documented:
+        for f, k in allowed:
+            if f is vi and k not in top:
+                ctx.check(
+                    k in documented,
+                    'C17.R3',
+                    f'{func_label(f)}|accepted-section-documented:{k}',
+                    loc(f, f.node),
+                    f'init accepts the documented encryption section {k!r}',
+                    f'init accepts an `encryption.{k}` section that the documentation does not offer (documented: {sorted(documented)}): its adapter is built from user input but never exercised before the config upload, '
+                    'so e.g. invalid parameters are accepted, the repository is created and every later snapshot fails',
+                )
     consumers = [corpus.method(cls, '_make_config'), corpus.method(cls, '_make_key')]
     read = set()
     for c in consumers:
@@ -297,6 +427,15 @@ def r4_unlock_from_stored(ctx):
         raise AnalysisError('C17.R4: unlock does not assign self.props')
     stale = contains(t, lambda y: y[0] == 'attr' and y[2] == 'props' and y[1][0] == 'self')
     from_cfg = contains(t, lambda y: y == ('const', 'config')) and contains(t, lambda y: y[0] == 'call' and y[1][0] == 'attr' and y[1][2] == 'download')
+    elsewhere = find(t, lambda y: y[0] == 'call' and ((y[1][0] == 'attr' and y[1][2] in ('read_bytes', 'read_text', 'read', 'open', '_get_cached')) or y[1] == ('name', 'open')))
+    ctx.check(
+        not elsewhere,
+        'C17.R4',
+        f'{func_label(fn)}|config-only-from-backend',
+        loc(fn, fn.node),
+        'unlock takes the repository config from the backend only',
+        f'unlock can take the config from somewhere else than the repository ({show(elsewhere[0], limit=80) if elsewhere else ""}): a copy that belongs to another repository / an older state decides whether (and how) data is encrypted',
+    )
     ctx.check(
         from_cfg and not stale,
         'C17.R4',
@@ -433,6 +572,7 @@ def r7_emitted_key_encrypted(ctx):
 
 
 def run(ctx):
+    r2b_chunker_lengths_positive(ctx)
     from ..report import Relabel
     from .c10 import r4_prefix, r3_stateless
 
